@@ -277,6 +277,11 @@ class Interp:
             r = m(self, args, kwargs)
             if r is not NotImplemented:
                 return r
+        if isinstance(fn, models.SymCallable):
+            try:
+                return fn.f(*args, **kwargs)
+            except (ValueError, IndexError, TypeError) as e:
+                raise PyRaise(e)
         if isinstance(fn, BoundMethod):
             return self.call(fn.fn, [fn.obj] + list(args), kwargs)
         if isinstance(fn, Closure):
